@@ -5,14 +5,15 @@ import random
 from harness import aggfam, boot, core, gen
 from harness.core import llit, qlit, zlit
 
-IMPORTS = "From Coq Require Import ZArith QArith List.\nImport ListNotations.\nFrom Elex Require Import Model.Ranks Model.Compare.\n"
+IMPORTS = "From Coq Require Import ZArith QArith List.\nImport ListNotations.\nFrom Elex Require Import Model.Ranks Model.Compare Model.NonrepBounds.\n"
 
 RULE = ("(i) _get_quantiles on the grid of levels k/1000 x numbers of draws B (quick: 30 values of B in [2, 2000]; thorough: every B in [2, 2000]): "
         "implementation ranks compared inside Coq with the exact-rational model and with the validity predicate 0 <= lower rank <= upper rank <= B; "
         "(ii) random and adversarial draw matrices (all signs, ties, constant rows, B in {2,3,10,37,500}) injected into a BootstrapElectionModel: unit "
         "bounds compared with rhe(pred - quantile_lin(sorted draws)) and checked ordered / nested for every pair of levels, aggregate bounds checked to "
         "straddle the prediction and to be nested; (iii) get_estimates runs (districts, fixed effects, several regularisation constants): unit lower <= "
-        "upper, nesting at unit and aggregate level, lower < prediction < upper, margin in [-1,1], turnout >= 0. distinct = grid level / (B, matrix "
+        "upper, nesting at unit and aggregate level, lower < prediction < upper, margin in [-1,1], turnout >= 0; the clipping bounds of every nonreporting unit "
+        "(_generate_nonreporting_bounds) compared inside Coq with y_bounds / z_bounds, and every bootstrap draw and point prediction of the run checked to lie inside them. distinct = grid level / (B, matrix "
         "kind) / API fingerprint; non-trivial = B >= 3 or a completed API run with >= 1 nonreporting unit")
 
 
@@ -88,7 +89,98 @@ def presidential_files(rng, case):
             "predictions/P/county/unit_data/current.csv": pd.DataFrame(prows).to_csv(index=False)}
 
 
+class ClipCapture:
+    """records, for every bootstrap run, the clipping bounds of the nonreporting units (_generate_nonreporting_bounds: inputs, settings, outputs) and
+    checks every draw of the run against them (the draws themselves stay inside the worker)"""
+
+    def __init__(self):
+        self.calls, self.fails = [], []
+
+    def __enter__(self):
+        from harness import run_impl
+        run_impl._imp()
+        import numpy as np
+        from elexmodel.models.BootstrapElectionModel import BootstrapElectionModel as M
+        self.M, self.ob, self.oc = M, M._generate_nonreporting_bounds, M.compute_bootstrap_errors
+        cap = self
+
+        def wb(slf, nonreporting_units, bootstrap_estimand, *a, **k):
+            lo, hi = cap.ob(slf, nonreporting_units, bootstrap_estimand, *a, **k)
+            y = bootstrap_estimand == "results_normalized_margin"
+            cap.calls.append({"est": "y" if y else "z", "ids": list(nonreporting_units["geographic_unit_fips"]),
+                              "pev": [float(x) for x in nonreporting_units.percent_expected_vote.values],
+                              "val": [float(x) for x in nonreporting_units[bootstrap_estimand].values],
+                              "lo": [float(x) for x in np.asarray(lo).flatten()], "hi": [float(x) for x in np.asarray(hi).flatten()],
+                              "set": ([slf.y_unobserved_lower_bound, slf.y_unobserved_upper_bound] if y else
+                                      [slf.z_unobserved_lower_bound, slf.z_unobserved_upper_bound, slf.percent_expected_vote_error_bound])})
+            return lo, hi
+
+        def wc(slf, reporting_units, nonreporting_units, unexpected_units, *a, **k):
+            n0 = len(cap.calls)
+            out = cap.oc(slf, reporting_units, nonreporting_units, unexpected_units, *a, **k)
+            mine = {c["est"]: c for c in cap.calls[n0:]}
+            if "y" in mine and "z" in mine and len(mine["y"]["ids"]) > 0 and getattr(slf, "ran_bootstrap", False):
+                ids = mine["y"]["ids"]
+                w = nonreporting_units["baseline_weights"].values.reshape(-1, 1).astype(float)
+                ylo, yhi = np.array(mine["y"]["lo"]).reshape(-1, 1), np.array(mine["y"]["hi"]).reshape(-1, 1)
+                zlo, zhi = np.array(mine["z"]["lo"]).reshape(-1, 1), np.array(mine["z"]["hi"]).reshape(-1, 1)
+                tol = 1e-9
+                with np.errstate(all="ignore"):
+                    for name, num, den, lo, hi in (("margin draw", slf.errors_B_1, slf.errors_B_3, ylo, yhi), ("turnout-factor draw", slf.errors_B_3, w, zlo, zhi),
+                                                   ("margin draw with sampled error", slf.errors_B_2, slf.errors_B_4, ylo, yhi), ("turnout-factor draw with sampled error", slf.errors_B_4, w, zlo, zhi),
+                                                   ("margin point prediction", slf.weighted_yz_test_pred, slf.weighted_z_test_pred, ylo, yhi),
+                                                   ("turnout-factor point prediction", slf.weighted_z_test_pred, w, zlo, zhi)):
+                        num, den = np.asarray(num, dtype=float), np.asarray(den, dtype=float)
+                        q = num / den
+                        okd = np.isfinite(q) & (np.abs(den) > 1e-12)
+                        bad = okd & ((q < lo - tol * np.maximum(1, np.abs(lo))) | (q > hi + tol * np.maximum(1, np.abs(hi))))
+                        if bad.any():
+                            i, j = [int(t) for t in np.argwhere(bad)[0]]
+                            cap.fails.append({"what": f"unit {ids[i]}: {name} {float(q[i, j])} (draw {j}) lies outside the unit's clipping bounds "
+                                                      f"[{float(lo[i, 0])}, {float(hi[i, 0])}] ({int(bad.sum())} of {int(okd.sum())} values outside)", "kind": "draw-outside-bounds"})
+            return out
+
+        M._generate_nonreporting_bounds, M.compute_bootstrap_errors = wb, wc
+        return self
+
+    def __exit__(self, *exc):
+        self.M._generate_nonreporting_bounds, self.M.compute_bootstrap_errors = self.ob, self.oc
+        return False
+
+    def exprs(self):
+        """Coq comparator expressions: the captured bounds against Model/NonrepBounds.v"""
+        import math
+        out = []
+        for c in self.calls:
+            rows = [f"({qlit(p)}, {qlit(v)}, ({qlit(lo)}, {qlit(hi)}))" for p, v, lo, hi in zip(c["pev"], c["val"], c["lo"], c["hi"])
+                    if all(math.isfinite(t) for t in (p, v, lo, hi))]
+            if not rows:
+                continue
+            if c["est"] == "y":
+                out.append(f"check_y_bounds {qlit(c['set'][0])} {qlit(c['set'][1])} {llit(rows)}")
+            else:
+                out.append(f"check_z_bounds {qlit(c['set'][0])} {qlit(c['set'][1])} {qlit(c['set'][2])} {llit(rows)}")
+        return out
+
+
 def api_job(job):
+    with ClipCapture() as cap:
+        res = api_job_inner(job)
+    res["clip_exprs"] = cap.exprs()
+    res["clip_units"] = sum(len(c["ids"]) for c in cap.calls)
+    if res.get("ok"):
+        res["fails"] += cap.fails
+        # statement on the captured bounds themselves: ordered, margin bounds inside the naive range
+        for c in cap.calls:
+            for uid, lo, hi in zip(c["ids"], c["lo"], c["hi"]):
+                if not (lo <= hi):
+                    res["fails"].append({"what": f"unit {uid}: clipping bounds of the {'margin' if c['est'] == 'y' else 'turnout factor'} are not ordered: [{lo}, {hi}]", "kind": "clip-bounds"})
+                elif c["est"] == "y" and not (c["set"][0] - 1e-12 <= lo and hi <= c["set"][1] + 1e-12):
+                    res["fails"].append({"what": f"unit {uid}: margin clipping bounds [{lo}, {hi}] leave the naive range {c['set'][:2]}", "kind": "clip-bounds"})
+    return res
+
+
+def api_job_inner(job):
     seed, kw = job
     kw = dict(kw)
     pres = kw.pop("presidential", False)
@@ -281,6 +373,19 @@ def run(chk):
         ajobs.append((rng.randint(0, 2**31), kw))
     api = core.pmap(api_job, ajobs)
     n_ok = 0
+    cexprs, cidx = [], []
+    for o in api:
+        for e in o.get("clip_exprs", []):
+            cexprs.append(e)
+            cidx.append(o)
+    cres, cerrs = core.coq_eval("C06", IMPORTS, cexprs, shard=8, tag="clip") if cexprs else ([], [])
+    for o, e, v in zip(cidx, cexprs, cres):
+        if o["fails"]:
+            continue
+        if v != "true":
+            chk.violation(f"clipping bounds of the nonreporting units differ from y_bounds / z_bounds of the model ({'did not evaluate' if v is None else v}; {e[:14]})",
+                          {"kind": "api", "job": o["job"], "correspondence": "coq/Model/NonrepBounds.v check_y_bounds / check_z_bounds", "errors": cerrs[:1]},
+                          {"kind": "model-diff" if v is not None else "coq-eval"}, no_input=True)
     for o in api:
         chk.count(o["fp"], nontrivial=o["nontrivial"], sample={"api_seed": o["job"][0], "kw": o["job"][1], "outcome": o["exc"] or "completed"})
         n_ok += 1 if o["ok"] else 0
@@ -295,7 +400,8 @@ def run(chk):
     if not ok and not [v for v in chk.violations if not v["no_input"]]:
         chk.violation("proof obligations / generated formulas of C06 no longer check", {"theorem_file": "coq/Properties/C06.v", "log": rep.get("log_tail", "")[-1500:],
                                                                                       "translator": chk.notes.get("translator_problems")}, {"kind": "proof-broken"}, no_input=True)
-    return chk.finish(RULE, extra={"grid_B_values": len(Bs), "grid_levels": 999, "injected_matrices": len(inj), "api_completed": n_ok})
+    return chk.finish(RULE, extra={"grid_B_values": len(Bs), "grid_levels": 999, "injected_matrices": len(inj), "api_completed": n_ok,
+                                  "clip_bound_units_compared": sum(o.get("clip_units", 0) for o in api), "clip_bound_calls": len(cexprs)})
 
 
 def whole(x):
@@ -305,7 +411,10 @@ def whole(x):
 def replay(chk, payload):
     r = payload["replay"]
     if r["kind"] == "api":
-        print(json.dumps(api_job(tuple(r["job"])), indent=1, default=str)[:3000])
+        o = api_job(tuple(r["job"]))
+        o.pop("clip_exprs", None)
+        print(json.dumps(o, indent=1, default=str)[:3000])
+        return 1 if o.get("fails") else 0
     elif r["kind"] == "inject":
         o = inject_job(tuple(r["job"]))
         print(json.dumps({"preds": o["preds"], "unit": o["unit"]}, default=str)[:2000])
